@@ -71,6 +71,9 @@ def peers_for(rnd):
     P.append(dict(good, kex=['foo-kex@example.org', 'curve25519-sha256'], enc=['aes128-ctr', 'bar-cipher']))
     P.append(dict(good, kex=['curve25519-sha256', 'kex-strict-s-v00@openssh.com'], key=['rsa-sha2-512', 'ssh-ed25519'], hk={'rsa-sha2-512': (2048, '', 0)}))
     P.append(dict(good, kex=['curve25519-sha256', 'diffie-hellman-group-exchange-sha256'], dh={'diffie-hellman-group-exchange-sha256': (1024, False)}))
+    # names whose table entry consists of failure notes only (no warning or information list)
+    P.append(dict(good, kex=['curve25519-sha256', 'kex-strict-s-v00@openssh.com'], key=['ssh-ed25519', 'ssh-xmss@openssh.com'],
+                  enc=['arcfour', 'aes256-gcm@openssh.com', 'arcfour256', '3des-ctr', 'none'], mac=['hmac-sha2-256-etm@openssh.com', 'none']))
     return P
 
 
@@ -129,6 +132,7 @@ def run(tier):
         else:
             ck.cov['traces_validated_against_impl'] += 1
     cli_leg(ck, tier, rnd)
+    targets_leg(ck, tier, rnd)
     seeds_leg(ck, tier)
     ck.cov['rule'] = ('TLC: every call sequence up to length %d over 12 buffer calls x 12 option sets, replayed into OutputBuffer; CLI: 8 peers covering every severity mix x '
                       '{-b} x {-v} x {-n} x -l {info,warn,fail} x {text,-j,-jj} with expected findings/status from TLC (SshRating); repeated runs and 8 hash seeds in fresh '
@@ -228,6 +232,67 @@ def cli_leg(ck, tier, rnd):
             ck.violation('json-compact-vs-indented', '-j and -jj parse to different values', {'key': k})
     ck.sample({'peer': {x: cases[2][x] for x in ('kex', 'key', 'enc', 'mac')}, 'expected_status': expected[cases[2]['id']]['status'],
                'findings_at_warn': sorted(findings_of_exp(expected[cases[2]['id']], 'warn'))[:6]})
+
+
+def targets_leg(ck, tier, rnd):
+    """The same options on a target list (-T): with -j the whole of stdout stays one JSON array whose elements are the documents
+    of the default-option run, whatever -l / -v / -b / -n are; in text mode each target's block shows that target's findings
+    filtered to the level."""
+    from checks import multi
+    P = peers_for(rnd)
+    picks = [P[2], P[0], P[5]]
+    cases = [rating.mk_case(900 + i, kex=p['kex'], key=p['key'], enc=p['enc'], mac=p['mac'], hk=p.get('hk'), dh=p.get('dh'),
+                            sw={'product': 'OpenSSH', 'c': [9, 6], 'p': ['none', 0]}) for i, p in enumerate(picks)]
+    tg = [('server', rating.server_cfg(c)) for c in cases]
+    optsets = [[]] + [['-l', lvl] for lvl in ('warn', 'fail')] + [['-v'], ['-b'], ['-n'], ['-v', '-l', 'fail'], ['-b', '-l', 'warn']]
+    scs, meta = [], []
+    for threads in (1, 2):
+        for fmt in (['-j'], ['-jj']) if tier == 'thorough' else (['-j'],):
+            for o in optsets:
+                sc, labels = multi.scenario(tg, threads, (0, 1, 2) if threads == 1 else None, json_out=True, extra=o)
+                if fmt == ['-jj']:
+                    sc['argv'] = ['-jj' if a == '-j' else a for a in sc['argv']]
+                scs.append(sc)
+                meta.append((threads, tuple(o), labels))
+    results = runner.run_many(scs)
+    ref = {}
+    for sc, (threads, o, labels), r in zip(scs, meta, results):
+        ck.evaluated()
+        if r.get('harness_error') or r.get('hang'):
+            raise common.Machinery('target-list run failed: %r' % (r.get('harness_error') or 'hang'))
+        tag = ' '.join(o) or 'default'
+        replay = {'argv': sc['argv'], 'exit': r['exit'], 'stdout': r['stdout'][-2500:]}
+        try:
+            doc = json.loads(r['stdout'])
+            assert isinstance(doc, list)
+        except (ValueError, AssertionError):
+            cause = 'empty-elements' if r['stdout'].replace(' ', '').replace('\n', '') in ('[,,]', '[,]', '[]') else 'unparsable'
+            ck.violation('target-list-json-broken cause=%s opts=%s' % (cause, _optkind(o)), 'stdout of -T -j %s is not a JSON array of documents: %r' % (tag, r['stdout'][:120]), replay)
+            continue
+        byt = {}
+        for el in doc:
+            if isinstance(el, dict):
+                byt['%s:%s' % (el.get('target', '').rsplit(':', 1)[0] if 'target' in el else el.get('host'), el.get('target', ':22').rsplit(':', 1)[1] if 'target' in el else el.get('port'))] = el
+        if o == ():
+            ref[threads] = (r['exit'], byt)
+            if len(byt) != len(labels):
+                ck.violation('target-list-json-elements', 'the default -T -j run yields %d documents for %d targets' % (len(byt), len(labels)), replay)
+            else:
+                ck.cov['traces_validated_against_impl'] += 1
+            continue
+        if threads not in ref:
+            continue
+        if r['exit'] != ref[threads][0]:
+            ck.violation('target-list-status-depends-on-options opts=%s' % _optkind(o), 'exit status %r under %s, %r by default' % (r['exit'], tag, ref[threads][0]), replay)
+        elif byt != ref[threads][1]:
+            ck.violation('target-list-json-depends-on-options opts=%s' % _optkind(o), 'the JSON documents of -T -j %s differ from those of the default run' % tag, replay)
+        else:
+            ck.cov['traces_validated_against_impl'] += 1
+            ck.nontrivial(('targets', threads, o))
+
+
+def _optkind(o):
+    return '+'.join(x.lstrip('-') for x in o if x.startswith('-')) or 'default'
 
 
 def _filtered(exp, lvl):
